@@ -615,6 +615,30 @@ def check_c05(repo, tier):
                     run.oblige('D3', (entry, scen), not bad)
                     if bad:
                         run.add(finding(entry, 'D3 input untouched', f'{scen}: cores {bad} of the receiver were replaced'))
+    # D2 options of pinv: the global SVD behind the pseudoinverse gets the caller's index, threshold and BOTH orthonormalisation flags (each flag combination;
+    # the flags select which sweeps run -- the documented use is that the caller has done that side already)
+    for (ol, orr), thr in itertools.product(((True, True), (False, True), (True, False), (False, False)), (0.0, 1e-8)):
+        d, index = 3, 2
+        scen = f'pinv(order={d}, index={index}, threshold={thr}, ortho_l={ol}, ortho_r={orr}): options'
+        entry = f'{TTM}.TT.pinv'
+
+        def body(sc):
+            a = sc.tt('a', d, 'vec')
+            sc.inputs = (a,)
+            return sc.method(a, 'pinv', index, threshold=thr, ortho_l=ol, ortho_r=orr)
+        for ch, sc, res, exc in l2.explore(repo, body, typed=False):
+            a = sc.inputs[0]
+            calls = [e for e in sc.events('call') if e['callee'].name == 'svd' and e['callee'].mod == TTM and e['args'] and e['args'][0] is a]
+            if not calls:
+                raise AnalysisError(f'{scen}: TT.svd is not applied to the receiver: the way the pseudoinverse is formed is not one the option rule recognises')
+            c = calls[0]
+            argd = dict(zip(['self', 'index', 'threshold', 'max_rank', 'ortho_l', 'ortho_r', 'overwrite'], c['args']))
+            argd.update(c['kwargs'])
+            good = argd.get('index') == index and argd.get('threshold', 0.0) == thr and argd.get('ortho_l', True) is ol and argd.get('ortho_r', True) is orr
+            run.oblige('D2', (entry, scen), good)
+            if not good:
+                shown = {k_: v_ for k_, v_ in argd.items() if k_ != 'self'}
+                run.add(finding(entry, 'D2 options of the global SVD', f'{scen}: TT.svd is called with {shown} instead of index={index}, threshold={thr}, ortho_l={ol}, ortho_r={orr}'))
     l2rules.frame_obligations(run, 'C05', 'D3', repo, [f'{TTM}.TT.svd', f'{TTM}.TT.pinv'])
     run.floor('obligations decided', run.obligations, 60)
     return run
